@@ -114,8 +114,8 @@ def to_script(ops: list, base: dict, *, seed: int, verbose=None, saving=None, nj
             sops.append(["call", op[1]])
         elif k in ("mkckpt", "restore"):
             sops.append([k])
-        elif k == "set":
-            sops.append(["set", op[1]])
+        elif k in ("set", "setsched"):
+            sops.append([k, op[1]])
         elif k == "loss":
             losses.append(op[1])
         elif k == "fault":
@@ -240,7 +240,7 @@ def _key(tr: dict, ev: dict, clauses: list[str]) -> str:
     flags = []
     if "restore" in ops:
         flags.append("restore")
-    if "set" in ops:
+    if "set" in ops or "setsched" in ops:
         flags.append("set")
     if tr["script"].get("faults"):
         flags.append("fault")
